@@ -42,6 +42,7 @@ type FuncContract struct {
 	Serves   []string
 	Requires []*Clause
 	Ensures  []*Clause
+	Assumed  []*Clause // postconditions handed to callers but not checked against the body (listed as trusted)
 	Lets     []*SpecDef
 	Loops    map[int]*LoopSpec
 	Asserts  []*AssertSpec
@@ -84,6 +85,7 @@ type TypeContract struct {
 	Pkg     string
 	Guarded map[string][]string // mutex field -> guarded "Type.field" names
 	Closed  bool                // interface: every implementation is among the loaded packages (stated assumption)
+	Sent    *Clause             // message invariant over v (*T): asserted at every send, assumed at every receive
 }
 
 type Contracts struct {
@@ -97,7 +99,7 @@ type Contracts struct {
 
 var clauseKW = map[string]bool{"serves": true, "requires": true, "ensures": true, "let": true, "loop": true,
 	"assert": true, "safety": true, "inline": true, "atomic": true, "pure": true, "trusted": true, "guarded_by": true,
-	"uses": true, "opt": true, "split": true, "closed": true}
+	"uses": true, "opt": true, "split": true, "closed": true, "sent": true, "assumes": true}
 
 func fkey(pkg, name string) string { return pkg + " " + name }
 
@@ -250,6 +252,14 @@ func (cs *Contracts) loadFile(path, pkg string) error {
 				}
 				continue
 			}
+			if kw == "sent" {
+				cl, err := mkClause(rest, path, l.line)
+				if err != nil {
+					return err
+				}
+				curT.Sent = cl
+				continue
+			}
 			if kw == "closed" {
 				curT.Closed = true
 				cs.Scan = append(cs.Scan, fmt.Sprintf("closed-world interface %s (calls through it write at most what its loaded implementations write)", curT.Name))
@@ -275,6 +285,14 @@ func (cs *Contracts) loadFile(path, pkg string) error {
 				return err
 			}
 			curF.Ensures = append(curF.Ensures, cl)
+		case "assumes":
+			// a postcondition the callers may use that is NOT checked against the body
+			cl, err := mkClause(rest, path, l.line)
+			if err != nil {
+				return err
+			}
+			curF.Assumed = append(curF.Assumed, cl)
+			cs.Scan = append(cs.Scan, fmt.Sprintf("assumed postcondition of %s (not checked against its body): %s", curF.Name, cl.Text))
 		case "let":
 			i := strings.Index(rest, "=")
 			if i < 0 {
@@ -291,6 +309,9 @@ func (cs *Contracts) loadFile(path, pkg string) error {
 				return fmt.Errorf("%s:%d: malformed loop clause", path, l.line)
 			}
 			n, err := strconv.Atoi(fields[1])
+			if fields[1] == "*" {
+				n, err = -1, nil // every loop without a specification of its own
+			}
 			if err != nil {
 				return fmt.Errorf("%s:%d: loop ordinal: %v", path, l.line, err)
 			}
